@@ -62,13 +62,56 @@ def build_overlay(root, edits):
     return out
 
 
+def seed_overlay(root, patch_path):
+    """overlay produced by applying a seeded patch.diff to a throw-away copy of the package
+    (None if it does not apply to the current tree)"""
+    import shutil
+    import subprocess
+    import tempfile
+
+    tmp = tempfile.mkdtemp(prefix="cct_seed_")
+    try:
+        shutil.copytree(os.path.join(root, PKG), os.path.join(tmp, PKG), ignore=shutil.ignore_patterns("__pycache__"))
+        r = subprocess.run(["git", "apply", "-p1", "--whitespace=nowarn", patch_path], cwd=tmp, capture_output=True, text=True)
+        if r.returncode != 0:
+            return None
+        out = {}
+        for f in os.listdir(os.path.join(tmp, PKG)):
+            if f.endswith(".py"):
+                new = open(os.path.join(tmp, PKG, f), encoding="utf-8").read()
+                orig_path = os.path.join(root, PKG, f)
+                old = open(orig_path, encoding="utf-8").read() if os.path.exists(orig_path) else None
+                if new != old:
+                    out["%s/%s" % (PKG, f)] = new
+        return out or None
+    finally:
+        shutil.rmtree(tmp, ignore_errors=True)
+
+
+def seed_cases(pid):
+    """the independently seeded changes written against this property (regression cases)"""
+    import json
+
+    base = os.path.join(os.path.dirname(os.path.dirname(os.path.abspath(__file__))), "seeded")
+    out = []
+    if os.path.isdir(base):
+        for d in sorted(os.listdir(base)):
+            mp = os.path.join(base, d, "meta.json")
+            if os.path.exists(mp) and json.load(open(mp)).get("property") == pid:
+                out.append(Case("seed:" + d, "break", [("@seed", os.path.join(base, d, "patch.diff"), None)], ""))
+    return out
+
+
 def _run_case(args):
     pid, root, name, kind, edits, expect = args
     from sa.engine import Engine
     from sa.report import RuleContext
 
     try:
-        overlay = build_overlay(root, edits)
+        if edits and edits[0][0] == "@seed":
+            overlay = seed_overlay(root, edits[0][1])
+        else:
+            overlay = build_overlay(root, edits)
     except AnalysisError as e:
         return (name, kind, "error", str(e), [])
     if overlay is None:
@@ -108,7 +151,7 @@ def run_selftests(pid, root, seed=0, jobs=None):
         mod = importlib.import_module("selftest.cases_" + pid.lower())
     except ModuleNotFoundError:
         return {"selftest": "no self-validation cases registered for this property"}
-    cases = mod.CASES
+    cases = list(mod.CASES) + seed_cases(pid)
     jobs = jobs or min(16, max(1, os.cpu_count() or 1))
     work = [(pid, root, c.name, c.kind, c.edits, c.expect) for c in cases]
     # edits may contain callables: not picklable -> run those in-process
@@ -127,6 +170,7 @@ def run_selftests(pid, root, seed=0, jobs=None):
         "selftest_breaking_failclosed": len([r for r in results if r[2] == "analysis-error"]),
         "selftest_preserving_silent": len([r for r in results if r[2] == "silent"]),
         "selftest_skipped": len([r for r in results if r[2] == "skipped"]),
+        "selftest_seeded_changes_detected": len([r for r in results if r[0].startswith("seed:") and r[2] == "detected"]),
         "selftest_results": [{"case": r[0], "kind": r[1], "verdict": r[2], "keys": r[4], "note": r[3][:200]} for r in results],
     }
     applied = len(results) - summary["selftest_skipped"]
